@@ -85,6 +85,7 @@ struct Cfg {
     t17: bool,
     t18: bool,
     t19: bool,
+    t20: bool,
     let_ty: BTreeMap<String, String>, // local name -> type annotation to add (type inference needs it once ghost code mentions the local)
     keep_derive: Vec<String>,
     deref_assign_rhs: bool,
@@ -118,6 +119,40 @@ fn path_idents(p: &Path) -> Vec<String> {
 }
 
 impl<'a> V<'a> {
+    /// one operand of a chain: (iterator expression, loop pattern, prologue statements, pushed expression)
+    fn chain_side(&self, e: &Expr) -> Option<(String, String, String, String)> {
+        if let Expr::MethodCall(m) = e {
+            let name = m.method.to_string();
+            if (name == "cloned" || name == "copied") && m.args.is_empty() {
+                let recv = self.ed.r(&*m.receiver);
+                let v = format!("vx_c{}", self.loop_ctr + 1);
+                let body = if name == "cloned" { format!("{}.clone()", v) } else { format!("*{}", v) };
+                return Some((recv, v, String::new(), body));
+            }
+            if name == "map" && m.args.len() == 1 {
+                if let Expr::Closure(cl) = &m.args[0] {
+                    if cl.inputs.len() == 1 {
+                        let recv = self.ed.r(&*m.receiver);
+                        let body = self.ed.r(&*cl.body);
+                        let pat = match &cl.inputs[0] {
+                            Pat::Type(pt) => &*pt.pat,
+                            p => p,
+                        };
+                        // |&x| BODY : bind the reference, then `let x = *x_ref;`
+                        if let Pat::Reference(pr) = pat {
+                            if let Pat::Ident(pi) = &*pr.pat {
+                                let x = pi.ident.to_string();
+                                return Some((recv, format!("{}_ref", x), format!("let {} = *{}_ref; ", x, x), body));
+                            }
+                        }
+                        return Some((recv, self.ed.r(pat), String::new(), body));
+                    }
+                }
+            }
+        }
+        None
+    }
+
     fn is_kind(&self, s: &str) -> bool {
         self.cfg.kind_param.iter().any(|k| k == s)
     }
@@ -444,7 +479,21 @@ impl<'a, 'ast> Visit<'ast> for V<'a> {
                 if let Expr::MethodCall(mm) = &*m.receiver {
                     // the mapped function is a closure literal |P| BODY, or a path F (e.g. a tuple-struct constructor): |x| F(x)
                     let pb: Option<(String, String)> = match &mm.args[0] {
-                        Expr::Closure(cl) => Some((self.ed.r(&cl.inputs[0]), self.ed.r(&*cl.body))),
+                        Expr::Closure(cl) => {
+                            let pat = match &cl.inputs[0] {
+                                Pat::Type(pt) => &*pt.pat,
+                                p => p,
+                            };
+                            let mut out = (self.ed.r(&cl.inputs[0]), self.ed.r(&*cl.body));
+                            // |&x| BODY : iterate over references and dereference explicitly (Verus has no `&x` loop patterns)
+                            if let Pat::Reference(pr) = pat {
+                                if let Pat::Ident(pi) = &*pr.pat {
+                                    let x = pi.ident.to_string();
+                                    out = (format!("{}_ref", x), format!("{{ let {} = *{}_ref; {} }}", x, x, out.1));
+                                }
+                            }
+                            Some(out)
+                        }
                         Expr::Path(pth) => {
                             let v = format!("vx_a{}", self.loop_ctr + 1);
                             Some((v.clone(), format!("{}({})", self.ed.r(pth), v)))
@@ -491,6 +540,97 @@ impl<'a, 'ast> Visit<'ast> for V<'a> {
                             p = p, itn = itn, recv = recv, inv = inv, pre = pre, v = v, body = body, post = post
                         );
                         self.ed.replace(lo, hi, s, "T9");
+                    }
+                }
+            }
+            Expr::MethodCall(m) if self.cfg.t9 && m.method == "sum" && m.args.is_empty() && is_map_closure(&m.receiver) && matches!(&*m.receiver, Expr::MethodCall(mm) if matches!(&mm.args[0], Expr::Closure(_))) => {
+                // T9(d):  RECV.map(|P| BODY).sum()  ->  { let mut acc: usize = 0; for P in RECV { acc = acc + BODY; } acc }
+                // (Iterator::sum of usize values: add them up in order; the overflow obligation stays)
+                if let Expr::MethodCall(mm) = &*m.receiver {
+                    if let Expr::Closure(cl) = &mm.args[0] {
+                        let recv = self.ed.r(&*mm.receiver);
+                        let p = self.ed.r(&cl.inputs[0]);
+                        let body = self.ed.r(&*cl.body);
+                        self.loop_ctr += 1;
+                        let idx = self.loop_ctr;
+                        let ann = self.cfg.loops.get(&idx).cloned();
+                        let (itn, inv) = loop_annotation(&ann);
+                        let getf = |k: &str| ann.as_ref().and_then(|a| a.get(k)).and_then(|v| v.as_str()).unwrap_or("").to_string();
+                        let (pre, post) = (getf("body_pre"), getf("body_post"));
+                        let s = format!(
+                            "{{ let mut vx_s{i}: usize = 0;\n    for {p} in {itn}{recv}{inv}\n    {{\n        {pre}\n        vx_s{i} = vx_s{i} + {body};\n        {post}\n    }}\n    vx_s{i} }}",
+                            i = idx, p = p, itn = itn, recv = recv, inv = inv, pre = pre, body = body, post = post
+                        );
+                        self.ed.replace(lo, hi, s, "T9");
+                    }
+                }
+            }
+            Expr::MethodCall(m) if self.cfg.t20 && m.method == "collect" && m.args.is_empty() && is_chain2(&m.receiver) => {
+                // T20:  A.chain(B).collect()  with A, B of the form  E.iter().cloned() | E.iter().copied() | E.iter().map(|P| BODY)
+                //   ->  { let mut v = Vec::new(); for .. in E_A.iter() { v.push(..); } for .. in E_B.iter() { v.push(..); } v }
+                // (Chain yields all of the first iterator, then all of the second; collect pushes in order)
+                if let Expr::MethodCall(ch) = &*m.receiver {
+                    let mut parts: Vec<String> = vec![];
+                    let mut ety = String::new();
+                    let vname = format!("vx_v{}", self.loop_ctr + 1);
+                    for side in [&*ch.receiver, &ch.args[0]] {
+                        if let Some((recv, pat, prologue, body)) = self.chain_side(side) {
+                            self.loop_ctr += 1;
+                            let idx = self.loop_ctr;
+                            let ann = self.cfg.loops.get(&idx).cloned();
+                            let (itn, inv) = loop_annotation(&ann);
+                            let getf = |k: &str| ann.as_ref().and_then(|a| a.get(k)).and_then(|v| v.as_str()).unwrap_or("").to_string();
+                            let (pre, post) = (getf("body_pre"), getf("body_post"));
+                            if ety.is_empty() {
+                                ety = getf("elem_ty");
+                            }
+                            parts.push(format!(
+                                "    for {p} in {itn}{recv}{inv}\n    {{\n        {prologue}{pre}\n        {v}.push({body});\n        {post}\n    }}\n",
+                                p = pat, itn = itn, recv = recv, inv = inv, prologue = prologue, pre = pre, v = vname, body = body, post = post
+                            ));
+                        } else {
+                            self.errors.push("T20: unsupported chain operand".into());
+                        }
+                    }
+                    let newv = if ety.is_empty() { "Vec::new()".to_string() } else { format!("Vec::<{}>::new()", ety) };
+                    let s = format!("{{ let mut {v} = {newv};\n{parts}    {v} }}", v = vname, newv = newv, parts = parts.join(""));
+                    self.ed.replace(lo, hi, s, "T20");
+                }
+            }
+            Expr::MethodCall(m) if self.cfg.t20 && m.method == "to_vec" && m.args.is_empty() && !is_tail_slice(&m.receiver) => {
+                // T20(c):  S.to_vec()  ->  { let mut v = Vec::new(); let mut k = 0; while k < S.len() { v.push(S[k].clone()); k += 1; } v }
+                let base = self.ed.r(&*m.receiver);
+                self.loop_ctr += 1;
+                let idx = self.loop_ctr;
+                let ann = self.cfg.loops.get(&idx).cloned();
+                let (_itn, inv) = loop_annotation(&ann);
+                let getf = |k: &str| ann.as_ref().and_then(|a| a.get(k)).and_then(|v| v.as_str()).unwrap_or("").to_string();
+                let ety = getf("elem_ty");
+                let newv = if ety.is_empty() { "Vec::new()".to_string() } else { format!("Vec::<{}>::new()", ety) };
+                let s = format!(
+                    "{{ let mut vx_v{i} = {newv}; let mut vx_k{i}: usize = 0;\n    while vx_k{i} < {base}.len(){inv}\n    {{\n        vx_v{i}.push({base}[vx_k{i}].clone());\n        vx_k{i} += 1;\n    }}\n    vx_v{i} }}",
+                    i = idx, newv = newv, base = base, inv = inv
+                );
+                self.ed.replace(lo, hi, s, "T20");
+            }
+            Expr::MethodCall(m) if self.cfg.t20 && m.method == "to_vec" && m.args.is_empty() && is_tail_slice(&m.receiver) => {
+                // T20(b):  V[a..].to_vec()  ->  { let mut v = Vec::new(); let mut k = a; while k < V.len() { v.push(V[k].clone()); k += 1; } v }
+                if let Expr::Index(ix) = &*m.receiver {
+                    if let Expr::Range(rg) = &*ix.index {
+                        let base = self.ed.r(&*ix.expr);
+                        let start = self.ed.r(&**rg.start.as_ref().unwrap());
+                        self.loop_ctr += 1;
+                        let idx = self.loop_ctr;
+                        let ann = self.cfg.loops.get(&idx).cloned();
+                        let (_itn, inv) = loop_annotation(&ann);
+                        let getf = |k: &str| ann.as_ref().and_then(|a| a.get(k)).and_then(|v| v.as_str()).unwrap_or("").to_string();
+                        let ety = getf("elem_ty");
+                        let newv = if ety.is_empty() { "Vec::new()".to_string() } else { format!("Vec::<{}>::new()", ety) };
+                        let s = format!(
+                            "{{ let mut vx_v{i} = {newv}; let mut vx_k{i}: usize = {start};\n    while vx_k{i} < {base}.len(){inv}\n    {{\n        vx_v{i}.push({base}[vx_k{i}].clone());\n        vx_k{i} += 1;\n    }}\n    vx_v{i} }}",
+                            i = idx, newv = newv, start = start, base = base, inv = inv
+                        );
+                        self.ed.replace(lo, hi, s, "T20");
                     }
                 }
             }
@@ -780,6 +920,22 @@ impl<'a, 'ast> Visit<'ast> for V<'a> {
     }
 }
 
+fn is_chain2(e: &Expr) -> bool {
+    if let Expr::MethodCall(m) = e {
+        return m.method == "chain" && m.args.len() == 1;
+    }
+    false
+}
+
+fn is_tail_slice(e: &Expr) -> bool {
+    if let Expr::Index(ix) = e {
+        if let Expr::Range(r) = &*ix.index {
+            return r.start.is_some() && r.end.is_none();
+        }
+    }
+    false
+}
+
 fn is_filter_map_closure(e: &Expr) -> bool {
     if let Expr::MethodCall(m) = e {
         if m.method == "filter_map" && m.args.len() == 1 {
@@ -1012,6 +1168,7 @@ fn cfg_from(req: &Value) -> Cfg {
         c.t17 = r.get("t17").and_then(|v| v.as_bool()).unwrap_or(false);
         c.t18 = r.get("t18").and_then(|v| v.as_bool()).unwrap_or(false);
         c.t19 = r.get("t19").and_then(|v| v.as_bool()).unwrap_or(false);
+        c.t20 = r.get("t20").and_then(|v| v.as_bool()).unwrap_or(false);
         if let Some(m) = r.get("let_ty").and_then(|v| v.as_object()) {
             for (k, v) in m {
                 c.let_ty.insert(k.clone(), v.as_str().unwrap_or("").to_string());
